@@ -618,6 +618,45 @@ class Builtins:
             return SV(Ty("set", [ety]), r)
         raise Unsupported(f"set() of {v.ty}")
 
+    def bi_dict(self, n, line):
+        """dict(d): a new dict with the keys and values of d"""
+        e = self.e
+        from vlib.pyvc.engine import SV, Unsupported
+        if len(n.args) != 1:
+            raise Unsupported("dict() with other than one argument")
+        (v,) = self.args(n)
+        if v.ty.kind == "opt":
+            e.deref_check(v, line)
+            v = SV(v.ty.args[0], v.t)
+        if v.ty.kind != "dict":
+            raise Unsupported(f"dict() of {v.ty}")
+        kty, vty = v.ty.args
+        r = e.new_ref("dict")
+        e.hwrite(f"dict.has.{T.sort_name(kty)}", r, e.dict_has(v.t, kty), z3.ArraySort(T.sort_of(kty), z3.BoolSort()))
+        e.hwrite(f"dict.val.{T.sort_name(kty)}.{T.sort_name(vty)}", r, e.dict_val(v.t, kty, vty),
+                 z3.ArraySort(T.sort_of(kty), T.sort_of(vty)))
+        return SV(v.ty, r)
+
+    def bi_forall_str(self, n, line):
+        """forall_str(lambda k: P): k ranges over all strings (spec only)"""
+        from vlib.pyvc.engine import SV
+        e = self.e
+        self._spec_only("forall_str")
+        lam = n.args[-1]
+        v = z3.String(f"{lam.args.args[0].arg}!s{next(_c)}")
+        saved = e.bound
+        e.bound = dict(saved)
+        e.bound[lam.args.args[0].arg] = SV(T.STR, v)
+        e._unfolding += 1
+        e.binders.append(v)
+        try:
+            body = e.truthy(e.ev(lam.body))
+        finally:
+            e.binders.pop()
+            e._unfolding -= 1
+            e.bound = saved
+        return SV(T.BOOL, z3.ForAll([v], body))
+
     def bi_reduce(self, n, line):
         """reduce(lambda x, y: x * y, <int list | slice | generator>, 1)  ==  product."""
         e = self.e
